@@ -177,17 +177,23 @@ def run(prop, tier):
         res.sample({"schedule": short, "received": real}, limit=2)
     res.cov["schedules_played"] = played
     res.cov["schedules_infeasible_on_real_code"] = drifts
-    if played < max(3, len(meta) // 4):
-        raise Undecided("only %d of %d schedules could be forced: %s" % (played, len(meta), res.cov.get("drift_examples")))
+    too_few = played < max(3, len(meta) // 4)
     # ---- free-running connect / disconnect under the race detector ----
     rbin = vlib.build_harness(race=True, cmd="mv_fanout")
     actors = {}
     for k in range(3):
-        actors["h%d" % k] = [{"op": "fan_serve", "x": {"r": "10.0.0.9:5000%d" % k}}]
+        actors["h%d" % k] = [{"op": "fan_serve_bg", "x": {"r": "10.0.0.9:5000%d" % k}}]
         actors["f%d" % k] = [{"op": "sleep", "sleep_ms": 3 + 2 * k}, {"op": "fan_fail", "x": {"r": "10.0.0.9:5000%d" % k}}]
-    actors["src"] = []
-    for m in range(40 if quick else 300):
-        actors["src"] += [{"op": "fan_send", "x": {"msg": (m % 250) + 1}}, {"op": "sleep", "sleep_ms": 1}]
+    # two replicas behind the same IP address that never fail: connected before the first commit, they are owed everything
+    steady = ["10.0.0.9:51000", "10.0.0.9:51001"]
+    nmsg = 40 if quick else 250
+    actors["src"] = [{"op": "fan_serve_bg", "x": {"r": a}} for a in steady] + [{"op": "sleep", "sleep_ms": 60}]
+    for m in range(nmsg):
+        actors["src"] += [{"op": "fan_send", "x": {"msg": m + 1}}, {"op": "sleep", "sleep_ms": 1}]
+    actors["src"] += [{"op": "sleep", "sleep_ms": 150}, {"op": "fan_state", "x": {"ms": 0}}]
+    for a in steady:       # let their handlers return at the end
+        actors["src"] += [{"op": "fan_fail", "x": {"r": a}}]
+    actors["src"] += [{"op": "fan_send", "x": {"msg": 255}}]
     ops = [{"op": "fan_start"}, {"op": "par", "x": {"actors": {k: v for k, v in actors.items() if not k.startswith("h")}}}]
     # handlers must run concurrently with the rest: start them inside the same par
     ops = [{"op": "fan_start"}, {"op": "par", "x": {"actors": actors}}, {"op": "fan_stop"}]
@@ -204,6 +210,20 @@ def run(prop, tier):
             res.known_finding(known["NoLock"], {"stress": True, "death": txt[-200:]})
         else:
             res.violation("the master died under free-running connect/disconnect: %s" % txt[-500:], {"check": "fanout.stress"})
+    if not (isinstance(o, dict) and "died" in o):
+        try:
+            state = [x for x in o[1]["actors"]["src"] if "received" in x][0]["received"]
+        except Exception:
+            raise Undecided("stress run returned no state: %s" % str(o)[:300])
+        for a in steady:
+            got = state.get(a, [])
+            want = list(range(1, nmsg + 1))
+            if any(got[i] >= got[i + 1] for i in range(len(got) - 1)):
+                res.violation("free-running: replica %s received transactions out of commit order: %s" % (a, got[:60]), {"check": "fanout.stress", "seed": vlib.seed()})
+            elif got != want:
+                res.violation("free-running: replica %s stayed connected (from before the first commit) but received %d of %d transactions: missing e.g. %s" % (
+                    a, len(got), nmsg, [m for m in want if m not in got][:10]), {"check": "fanout.stress", "seed": vlib.seed()})
+        res.cov["traces_validated_against_impl"] += 1
     for sig, text in races.items():
         if "GRPCReplicationServer" in sig and "NoLock" in known:
             res.known_finding(known["NoLock"], {"race": sig})
@@ -211,4 +231,6 @@ def run(prop, tier):
             res.violation("data race in the replication fan-out: %s\n%s" % (sig, text[:1200]), {"check": "fanout.race", "signature": sig})
     res.assumptions += ["fake in-process streams stand for gRPC streams; a replica 'disconnects' by making its stream's Send fail",
                         "the order in which Go ranges over the stream map cannot be forced: schedules that assume another order are reported as drift"]
+    if too_few and not res.violations:
+        raise Undecided("only %d of %d schedules could be forced: %s" % (played, len(meta), res.cov.get("drift_examples")))
     return res.finish()
